@@ -12,7 +12,7 @@ from .. import runs_common as rc
 
 ID = "C20"
 LEVEL = "exploration"
-BUDGET = {"quick": 320, "thorough": 5000}
+BUDGET = {"quick": 320, "thorough": 16000}
 SHARDS = {"quick": 8, "thorough": 16}
 RULE = (
     "case = component in {Zuko flow construction+training+sampling (seed), FlowJax (key), importance sampling with a trained "
